@@ -1,11 +1,21 @@
 import TracklibVerif.Lemmas.Cinematics
+import TracklibVerif.Lemmas.CinTabOpt
+import TracklibVerif.Lemmas.CinTabATab
+import TracklibVerif.Lemmas.CinTabWorld
+import TracklibVerif.Lemmas.CinTabGeom
 import Mathlib.Analysis.Real.Sqrt
 /-! # C17 — curvilinear abscissa and speed features match their geometric definitions
 
 Property theorems only (helper lemmas: `Lemmas/Cinematics.lean`; model: `Model/Cinematics.lean`).
 `computeAbsCurv` / `estimateSpeed` are the models of `algo/cinematics.py computeAbsCurv / estimate_speed`
 (with `analytics.ds`, `analytics.speed`, `Integrator.execute`, `ENUCoords.distance2DTo`). A feature value
-`none` is NaN. All statements hold for tracks of any length. -/
+`none` is NaN. All statements hold for tracks of any length.
+
+Two layers. The first part states the properties on the list model (`Model/Cinematics.lean`: a track is a list of
+positions, a list of times and an association list of columns). The second part ("on the feature table") states them
+on the programs as the Python runs them — through the Track API, `Model/CinematicsTab.lean` — for EVERY
+representation of the feature table that satisfies the laws `CinTab.Laws`, and shows that the specification table
+of C01 and the world of observation objects shared between tracks are such representations. -/
 namespace TV.C17
 open TV.Cinematics
 variable {α : Type}
@@ -128,6 +138,232 @@ theorem abscurv_geometric (sqrt : α → α) (hs : SqrtSpec sqrt) (xy : List (α
 
 end field
 
+section rounded
+variable [Add α] [Sub α] [Mul α] [OfNat α 0] [Preorder α]
+
+/-- T1, "never decreases", WITHOUT exact arithmetic. Let the scalars carry any preorder, and assume only
+* `0 ≤ sqrt x` for every `x`, and
+* `a ≤ a + d` whenever `0 ≤ d` (adding a non-negative number does not decrease — true of every correctly rounded
+  floating-point addition, because rounding is monotone and `a` is representable).
+Then the abscissa `s = absc` never decreases: `i ≤ j → s i ≤ s j`. No commutativity, associativity or exactness of
+`+`, `-`, `*`, `sqrt` is used, so the statement applies to IEEE doubles with the operations in Python's order (the two
+assumptions are facts about IEEE-754, taken as hypotheses here). -/
+theorem abscurv_monotone_rounded (sqrt : α → α) (hsqrt : ∀ x, 0 ≤ sqrt x) (hadd : ∀ a d : α, 0 ≤ d → a ≤ a + d)
+    (xy : List (α × α)) : ∀ i j, i ≤ j → absc sqrt xy i ≤ absc sqrt xy j := by
+  have step : ∀ i, absc sqrt xy i ≤ absc sqrt xy (i + 1) := by
+    intro i
+    show absc sqrt xy i ≤ absc sqrt xy i + _
+    apply hadd
+    cases xy[i + 1]? with
+    | none => exact le_refl _
+    | some p =>
+      cases xy[i]? with
+      | none => exact le_refl _
+      | some q => exact hsqrt _
+  intro i j hij
+  induction hij with
+  | refl => exact le_refl _
+  | step _ ih => exact le_trans ih (step _)
+
+end rounded
+
+/-! ## on the feature table -/
+
+section table
+open TV.Features TV.CinTab
+variable [Add α] [Sub α] [Mul α] [Div α] [OfNat α 0] [BEq α] [LE α] [DecidableLE α]
+variable {σ : Type} [Tbl σ (Option α)]
+variable {I : σ → Prop} {n : σ → Nat} {rd : σ → String → Option (List (Option α))} {co : σ → Coord → List (Option α)}
+
+/-- T1 on the table. Let a feature table satisfy the laws (`L`), hold `xy.length ≥ 1` fixes at the finite positions
+`xy`, and list neither `ds` nor `abs_curv`. Then `computeAbsCurv` — `addAnalyticalFeature(ds, "ds")`,
+`operate(INTEGRATOR, "ds", "abs_curv")`, `removeAnalyticalFeature("ds")`, `getAnalyticalFeature("abs_curv")`, all
+through the Track API — terminates without an exception and
+* returns `[s 0, …, s (n-1)]`, `s = absc` (so `s 0 = 0`, `s (i+1) = s i + distance2D(P[i+1], P[i])`: `abscurv_prefix`,
+  `abscurv_geometric`), computed from the positions the table holds NOW;
+* `abs_curv` reads exactly that column afterwards, `ds` is not listed, every other name reads what it read before;
+* the coordinate and time columns, the number of fixes and the representation invariant are unchanged.
+Any scalar type, any `sqrt`. -/
+theorem abscurv_table (L : Laws I n rd co) (sqrt : α → α) (ofNat : Nat → α) (isNaN : α → Bool) (xy : List (α × α)) (s : σ)
+    (hI : I s) (hn : n s = xy.length) (hpos : 0 < xy.length) (hx : co s .x = xsOf xy) (hy : co s .y = ysOf xy)
+    (hds : rd s "ds" = none) (hac : rd s "abs_curv" = none) :
+    ∃ s', (computeAbsCurvT (optG sqrt ofNat isNaN) : M σ _) s
+        = (.ok ((List.range xy.length).map (fun i => some (absc sqrt xy i))), s')
+      ∧ I s' ∧ n s' = n s ∧ co s' = co s
+      ∧ rd s' "abs_curv" = some ((List.range xy.length).map (fun i => some (absc sqrt xy i)))
+      ∧ ∀ m, m ≠ "abs_curv" → rd s' m = rd s m := by
+  obtain ⟨r, s', e, hr, hI', hn', hco', hrd', hoth⟩ :=
+    computeAbsCurvT_fresh L (optG sqrt ofNat isNaN) xy.length hpos (co s) (rd s) hds hac s ⟨hI, hn, rfl, fun _ => rfl⟩
+  have hcol : r = (List.range xy.length).map (fun i => some (absc sqrt xy i)) := by
+    rw [hr, hx, hy, dsCol_opt, integG_opt, integrator_dsCol]
+  rw [hcol] at e hrd'
+  exact ⟨s', e, hI', by rw [hn', hn], hco', hrd', hoth⟩
+
+/-- T3 on the table (repetition). On a table that lists `abs_curv` (and no `ds`), `computeAbsCurv` returns the listed
+column as it is and every name, the coordinates and the times read afterwards what they read before — the temporary
+`ds` is created from the current positions and removed again. In particular a second `computeAbsCurv` right after the
+first returns the same column. -/
+theorem abscurv_table_again (L : Laws I n rd co) (sqrt : α → α) (ofNat : Nat → α) (isNaN : α → Bool) (s : σ)
+    (hI : I s) (hpos : 0 < n s) (hds : rd s "ds" = none) (col : List (Option α)) (hac : rd s "abs_curv" = some col) :
+    ∃ s', (computeAbsCurvT (optG sqrt ofNat isNaN) : M σ _) s = (.ok col, s')
+      ∧ I s' ∧ n s' = n s ∧ co s' = co s ∧ ∀ m, rd s' m = rd s m := by
+  obtain ⟨r, s', e, hr, hI', hn', hco', hoth⟩ :=
+    computeAbsCurvT_again L (optG sqrt ofNat isNaN) (n s) hpos (co s) (rd s) hds col hac s ⟨hI, rfl, rfl, fun _ => rfl⟩
+  rw [hr] at e
+  exact ⟨s', e, hI', hn', hco', hoth⟩
+
+/-- T2 on the table. On a lawful table of `n ≥ 2` fixes at the finite positions `xy` and finite times `ts` that does
+not list `speed`, `estimate_speed` (= `addAnalyticalFeature(speed)`) terminates without an exception, returns the
+column `speedCol sqrt xy ts` of the CURRENT positions and times — entry by entry the one-sided / centred quotient or
+NaN of `speedCol_def` —, `speed` reads exactly that column afterwards, every other name, the coordinates, the times and
+the invariant are unchanged. -/
+theorem speed_table (L : Laws I n rd co) (sqrt : α → α) (ofNat : Nat → α) (isNaN : α → Bool) (xy : List (α × α)) (ts : List α)
+    (s : σ) (hI : I s) (hn : n s = xy.length) (h2 : 2 ≤ xy.length) (hx : co s .x = xsOf xy) (hy : co s .y = ysOf xy)
+    (ht : co s .t = tsOf ts) (hsp : rd s "speed" = none) :
+    ∃ s', (estimateSpeedT (optG sqrt ofNat isNaN) : M σ _) s = (.ok (speedCol sqrt xy ts), s')
+      ∧ I s' ∧ n s' = n s ∧ co s' = co s ∧ rd s' "speed" = some (speedCol sqrt xy ts)
+      ∧ ∀ m, m ≠ "speed" → rd s' m = rd s m := by
+  obtain ⟨r, s', e, hr, hI', hn', hco', hrd', hoth⟩ :=
+    estimateSpeedT_fresh L (optG sqrt ofNat isNaN) xy.length h2 (co s) (rd s) hsp s ⟨hI, hn, rfl, fun _ => rfl⟩
+  have hcol : r = speedCol sqrt xy ts := by rw [hr, hx, hy, ht, speedCol_opt]
+  rw [hcol] at e hrd'
+  exact ⟨s', e, hI', by rw [hn', hn], hco', hrd', hoth⟩
+
+/-- T3 on the table (repetition). On a table that lists `speed`, `estimate_speed` returns the listed column and does
+not change the state at all. -/
+theorem speed_table_again (L : Laws I n rd co) (sqrt : α → α) (ofNat : Nat → α) (isNaN : α → Bool) (s : σ) (hI : I s)
+    (col : List (Option α)) (hsp : rd s "speed" = some col) :
+    (estimateSpeedT (optG sqrt ofNat isNaN) : M σ _) s = (.ok col, s) :=
+  estimateSpeedT_again L (optG sqrt ofNat isNaN) s hI col hsp
+
+end table
+
+section speedcol
+variable [Add α] [Sub α] [Mul α] [Div α] [OfNat α 0] [BEq α] [LawfulBEq α]
+open TV.CinTab
+
+/-- The entries of the speed column (what `speed_table` returns), for `n ≥ 2` fixes: `v[0]` from fixes (1,0), `v[n-1]`
+from fixes (n-1,n-2), `v[i]` from fixes (i+1,i-1) otherwise; NaN exactly when the elapsed time is zero, else planimetric
+distance over elapsed time. -/
+theorem speedCol_def (sqrt : α → α) (xy : List (α × α)) (ts : List α) (hn : 2 ≤ xy.length) (hts : ts.length = xy.length) :
+    (speedCol sqrt xy ts).length = xy.length ∧
+    ∀ (i a b : Nat) (_hi : i < xy.length),
+      ((i = 0 ∧ a = 1 ∧ b = 0) ∨ (i = xy.length - 1 ∧ a = xy.length - 1 ∧ b = xy.length - 2)
+        ∨ (0 < i ∧ i < xy.length - 1 ∧ a = i + 1 ∧ b = i - 1)) →
+      ∀ (ha : a < xy.length) (hb : b < xy.length),
+        (ts[a]'(hts ▸ ha) - ts[b]'(hts ▸ hb) = 0 → (speedCol sqrt xy ts)[i]? = some none) ∧
+        (ts[a]'(hts ▸ ha) - ts[b]'(hts ▸ hb) ≠ 0 →
+          (speedCol sqrt xy ts)[i]? = some (some (dist2D sqrt xy[a] xy[b] / (ts[a]'(hts ▸ ha) - ts[b]'(hts ▸ hb))))) := by
+  refine ⟨by simp [speedCol], ?_⟩
+  intro i a b hi hcase ha hb
+  have ha' : a < ts.length := hts ▸ ha
+  have hb' : b < ts.length := hts ▸ hb
+  have key : speedAt sqrt xy ts i = quot (dist2D sqrt xy[a] xy[b]) (ts[a] - ts[b]) := by
+    rw [← speedBetween_eq sqrt xy ts a b ha hb ha' hb']
+    unfold speedAt
+    rcases hcase with ⟨h0, h1, h2⟩ | ⟨h0, h1, h2⟩ | ⟨h0, h1, h2, h3⟩
+    · subst h0 h1 h2; simp
+    · subst h1 h2
+      have hz : ¬ (xy.length - 1 = 0) := by omega
+      subst h0
+      simp [hz]
+    · subst h2 h3
+      have hz : i ≠ 0 := by omega
+      have hl : i ≠ xy.length - 1 := by omega
+      simp [hz, hl]
+  rw [speedCol_getElem? sqrt xy ts i hi, key]
+  exact ⟨fun h => by rw [quot_zero _ _ h], fun h => by rw [quot_ne _ _ h]⟩
+
+end speedcol
+
+section representations
+open TV.Features TV.CinTab
+
+/-- The specification table of C01 (`Features.ATab`: name ↦ column, coordinate columns) satisfies the laws of a
+feature table; so `abscurv_table`, `speed_table`, … hold on it (and, through C01's simulation theorems, on the
+dict-and-rows table `Features.St` of a single track). -/
+theorem spec_table_lawful {V : Type} [Inhabited V] : Laws (σ := ATab V) (V := V) aI ATab.size aRd ATab.coord := laws_ATab
+
+/-- **Shared observations.** The world of observation OBJECTS referenced by several tracks (`+`, extract, slicing share
+them; each object carries one `features` list, each track its own name → index dict) satisfies the laws of a feature
+table for the track in focus, under `WInv`: its references are distinct and valid, its dict enumerates distinct names
+with distinct indices below its length, and every one of its objects carries AT LEAST as many slots as the dict lists —
+objects that went through another track's computations carry more. `createAnalyticalFeature` appends a slot and
+registers index `len(dico)`; reads, writes and deletions go through `features[dico[name]]`. Hence every table
+theorem holds for a track whose observations are shared. -/
+theorem shared_world_lawful {V : Type} [Inhabited V] [AbsTime V] : Laws (σ := World V) (V := V) WInv wN wRd wCo := laws_World
+
+variable [Add α] [Sub α] [Mul α] [Div α] [OfNat α 0] [BEq α] [LE α] [DecidableLE α] [IntCast α]
+
+/-- T1 for a track whose observations are shared with other tracks, as a statement about one operation of a history
+(`stepW`, what the driver runs): if track `k` of the world satisfies `WInv`, holds `≥ 1` fixes at the finite positions
+`xy` and lists neither `ds` nor `abs_curv`, then `computeAbsCurv(track k)` returns `[absc 0, …]` of the CURRENT
+positions, track `k` reads it under `abs_curv` afterwards and reads every other name as before — whatever extra slots
+its observation objects carry from computations made on other tracks. -/
+theorem abscurv_shared (sqrt : α → α) (ofNat : Nat → α) (isNaN : α → Bool) (w : World (Option α)) (k : Nat)
+    (xy : List (α × α)) (hw : WInv { w with cur := k }) (hn : wN { w with cur := k } = xy.length) (hpos : 0 < xy.length)
+    (hx : wCo { w with cur := k } .x = xsOf xy) (hy : wCo { w with cur := k } .y = ysOf xy)
+    (hds : wRd { w with cur := k } "ds" = none) (hac : wRd { w with cur := k } "abs_curv" = none) :
+    ∃ w', stepW (optG sqrt ofNat isNaN) (.absCurv k) w
+        = (.ok (.col ((List.range xy.length).map (fun i => some (absc sqrt xy i)))), w')
+      ∧ WInv w' ∧ wCo w' = wCo { w with cur := k }
+      ∧ wRd w' "abs_curv" = some ((List.range xy.length).map (fun i => some (absc sqrt xy i)))
+      ∧ ∀ m, m ≠ "abs_curv" → wRd w' m = wRd { w with cur := k } m := by
+  obtain ⟨w', e, hI', _, hco', hrd', hoth⟩ :=
+    abscurv_table laws_World sqrt ofNat isNaN xy { w with cur := k } hw hn hpos hx hy hds hac
+  refine ⟨w', ?_, hI', hco', hrd', hoth⟩
+  have hk : ¬ (k ≥ w.trks.length) := Nat.not_le.mpr hw.cur
+  unfold stepW
+  simp only [WOp.track, hk, if_false, e]
+  rfl
+
+/-- T2 for a track whose observations are shared: `estimate_speed(track k)` on a track of `≥ 2` fixes that does not list
+`speed` returns the speed column of the CURRENT positions and of the absolute times computed from the CURRENT timestamp
+fields (`ts`), and track `k` reads it under `speed` afterwards. -/
+theorem speed_shared (sqrt : α → α) (ofNat : Nat → α) (isNaN : α → Bool) (w : World (Option α)) (k : Nat)
+    (xy : List (α × α)) (ts : List α) (hw : WInv { w with cur := k }) (hn : wN { w with cur := k } = xy.length)
+    (h2 : 2 ≤ xy.length) (hx : wCo { w with cur := k } .x = xsOf xy) (hy : wCo { w with cur := k } .y = ysOf xy)
+    (ht : wCo { w with cur := k } .t = tsOf ts) (hsp : wRd { w with cur := k } "speed" = none) :
+    ∃ w', stepW (optG sqrt ofNat isNaN) (.speed k) w = (.ok (.col (speedCol sqrt xy ts)), w')
+      ∧ WInv w' ∧ wCo w' = wCo { w with cur := k } ∧ wRd w' "speed" = some (speedCol sqrt xy ts)
+      ∧ ∀ m, m ≠ "speed" → wRd w' m = wRd { w with cur := k } m := by
+  obtain ⟨w', e, hI', _, hco', hrd', hoth⟩ :=
+    speed_table laws_World sqrt ofNat isNaN xy ts { w with cur := k } hw hn h2 hx hy ht hsp
+  refine ⟨w', ?_, hI', hco', hrd', hoth⟩
+  have hk : ¬ (k ≥ w.trks.length) := Nat.not_le.mpr hw.cur
+  unfold stepW
+  simp only [WOp.track, hk, if_false, e]
+  rfl
+
+/-- **Purity, for every observation of every track.** Whatever the world looks like — aligned or not, whatever the
+tracks share — and also when the operation ends in an exception: after computing, reading, removing or writing
+features through any entry point (`computeAbsCurv`, `estimate_speed`, `addAnalyticalFeature(speed | ds)`,
+`operate(INTEGRATOR | DIFFERENTIATOR)`, `length`, `computeCurvAbsBetweenTwoPoints`, reads, `removeAnalyticalFeature`,
+`track[name] = list`, `isSorted`, `duration`, `getT`) the position and the calendar stamp of EVERY observation object
+and the reference list of EVERY track are what they were. -/
+theorem positions_and_stamps_unchanged {V : Type} [AbsTime V] (g : GOps V) (op : WOp V) (hop : op.onFeatures = true) (w : World V) :
+    geom (stepW g op w).2 = geom w ∧ (stepW g op w).2.trks.map (·.ids) = w.trks.map (·.ids) :=
+  stepW_frame g op hop w
+
+end representations
+
+section otherEntry
+open TV.Features TV.CinTab
+variable [Field α] [LinearOrder α] [IsStrictOrderedRing α]
+variable {σ : Type} [Tbl σ (Option α)]
+variable {I : σ → Prop} {n : σ → Nat} {rd : σ → String → Option (List (Option α))} {co : σ → Coord → List (Option α)}
+
+/-- Another entry point of "the planimetric length of the track": `computeCurvAbsBetweenTwoPoints(track)` on a lawful
+table holding `≥ 1` fixes at the finite positions `xy` only reads, and (in exact arithmetic: it subtracts the
+coordinates in the other order than `ds`) returns `absc (n-1)` — the value `abs_curv` ends at, the sum of the legs
+(`abscurv_geometric`). -/
+theorem curvabs_table (L : Laws I n rd co) (sqrt : α → α) (ofNat : Nat → α) (isNaN : α → Bool) (xy : List (α × α)) (s : σ)
+    (hI : I s) (hn : n s = xy.length) (hpos : 0 < xy.length) (hx : co s .x = xsOf xy) (hy : co s .y = ysOf xy) :
+    (curvAbsT (optG sqrt ofNat isNaN) : M σ _) s = (.ok (some (absc sqrt xy (xy.length - 1))), s) := by
+  rw [curvAbsT_read L (optG sqrt ofNat isNaN) s hI, hx, hy, hn, curvF_absc sqrt ofNat isNaN xy _ (by omega)]
+
+end otherEntry
+
 /-! ### non-vacuity -/
 
 /-- the square-root contract is inhabited (by `Real.sqrt`) -/
@@ -147,5 +383,53 @@ example : (estimateSpeed (fun x => if x = 25 then 5 else if x = 100 then 10 else
 example : (estimateSpeed (fun x => if x = 25 then 5 else 0)
     ({ xy := [(0, 0), (3, 4)], ts := [7, 7], feats := [] } : Track Rat)).2 = some [none, none] := by
   decide +kernel
+
+/-- the hypotheses of `abscurv_monotone_rounded` are satisfiable by an arithmetic whose square root is NOT exact: the
+integers with the floor square root -/
+example : (∀ x : Int, 0 ≤ ((Nat.sqrt x.toNat : Nat) : Int)) ∧ (∀ a d : Int, 0 ≤ d → a ≤ a + d) :=
+  ⟨fun _ => Int.natCast_nonneg _, fun a d h => by omega⟩
+example : absc (fun x : Int => ((Nat.sqrt x.toNat : Nat) : Int)) [(0, 0), (1, 1), (3, 2), (3, 2)] 3 = 3 := by decide +kernel
+
+/-! ### non-vacuity of the table theorems: a world whose observations are shared -/
+section demoWorld
+open TV.Features TV.CinTab TV.ObsTime
+
+/-- four observation objects; the two middle ones already carry a slot (value 7) because they also belong to track 1,
+on which `speed` was computed; track 0 references all four and lists no feature -/
+def demoW : World (Option Rat) :=
+  { heap := [⟨some 0, some 0, some 0, ⟨1970, 1, 1, 0, 0, 0, 0⟩, []⟩, ⟨some 3, some 4, some 0, ⟨1970, 1, 1, 0, 0, 2, 0⟩, [some 7]⟩,
+             ⟨some 3, some 4, some 1, ⟨1970, 1, 1, 0, 0, 2, 0⟩, [some 7]⟩, ⟨some 6, some 8, some 0, ⟨1970, 1, 1, 0, 0, 5, 0⟩, []⟩],
+    trks := [⟨[0, 1, 2, 3], []⟩, ⟨[1, 2], [("speed", 0)]⟩], cur := 0 }
+
+def demoG : GOps (Option Rat) := optG (fun x => if x = 25 then 5 else if x = 100 then 10 else 0) (fun n => (n : Rat)) (fun _ => false)
+
+/-- the hypotheses of `abscurv_shared` / `speed_shared` hold for track 0 of `demoW` (with `xy = demo.xy`, `ts = demo.ts`) -/
+example : WInv { demoW with cur := 0 } :=
+  ⟨by decide, by decide, by decide, ⟨by decide, by decide, by decide⟩, fun _ _ _ _ => Nat.zero_le _⟩
+example : wN { demoW with cur := 0 } = demo.xy.length ∧ wCo { demoW with cur := 0 } .x = xsOf demo.xy
+    ∧ wCo { demoW with cur := 0 } .y = ysOf demo.xy ∧ wCo { demoW with cur := 0 } .t = tsOf demo.ts
+    ∧ wRd { demoW with cur := 0 } "ds" = none ∧ wRd { demoW with cur := 0 } "abs_curv" = none
+    ∧ wRd { demoW with cur := 0 } "speed" = none := by decide +kernel
+/-- … and for track 1 (two fixes, one listed feature, one slot per object) -/
+example : WInv { demoW with cur := 1 } :=
+  ⟨by decide, by decide, by decide, ⟨by decide, by decide, by decide⟩, by
+    intro id hid ob hob
+    have : id = 1 ∨ id = 2 := by simpa [World.trk, demoW] using hid
+    rcases this with rfl | rfl <;> (simp [demoW] at hob; subst hob; decide)⟩
+
+/-- the model run: abs_curv of track 0 is 0,5,5,10 although objects 1 and 2 carried a foreign slot; afterwards they carry
+`[5, 0]` — the abscissa sits in the slot track 0's dict designates (index 0), the appended slot is behind it -/
+example : (match (stepW demoG (.absCurv 0) demoW).1 with | .ok (.col l) => l | _ => []) = [some 0, some 5, some 5, some 10] := by
+  decide +kernel
+example : (stepW demoG (.absCurv 0) demoW).2.heap.map (·.feats)
+    = [[some 0], [some 5, some 0], [some 5, some 0], [some 10]] := by decide +kernel
+example : wRd { (stepW demoG (.absCurv 0) demoW).2 with cur := 0 } "abs_curv" = some [some 0, some 5, some 5, some 10] := by
+  decide +kernel
+example : (match (stepW demoG (.speed 0) demoW).1 with | .ok (.col l) => l | _ => [])
+    = [some (5 / 2), some (5 / 2), some (5 / 3), some (5 / 3)] := by decide +kernel
+/-- an in-place edit of a timestamp FIELD is seen by the next computation: fix 1 moved from second 2 to second 0 -/
+example : (match (stepW demoG (.speed 0) (stepW demoG (.setTime 0 1 "sec" 0) demoW).2).1 with | .ok (.col l) => l | _ => [])
+    = [none, some (5 / 2), some (5 / 5), some (5 / 3)] := by decide +kernel
+end demoWorld
 
 end TV.C17
